@@ -42,7 +42,7 @@ def main():
             level_note='trusted: harness/drive.py trace recording, TLC, CommunityModules Json; numbers above 2^29 are not encodable and are counted as skipped',
             technique='TLA+ specification + TLC trace validation: ' + tech))
     m = dict(version=1,
-             setup_cmd='cd /verif && for f in spec/*.tla; do tla-sany "$f" >/dev/null || exit 1; done',
+             setup_cmd='cd /verif && ./bin/setup',
              hooks=dict(guard='DROOP_VERIF', enable='no hooks: observation is done from the harness process (instance wrappers); nothing to enable',
                         baseline_off_cmd=BASE, source_commits=[], add_only=True),
              engines=[dict(name='tlc', path='/verif/spec', serves_properties=sorted(CHECKS), kind_free_text='TLA+ specification checked with TLC 1.8; harness in /verif/harness drives the real code')],
